@@ -194,6 +194,8 @@ def bytes_(**kwargs):
     shift = kwargs.pop("shift", 0)
     if shift and (not bound or size):
         raise ProphyError("only shifting bound bytes implemented")
+    if shift < 0:
+        raise ProphyError("negative shift of bound bytes not allowed")
     if kwargs:
         raise ProphyError("unknown arguments to bytes field")
 
